@@ -57,6 +57,20 @@ fn matrix(acc: &mut Acc) {
             for (kind, text) in texttypes::valid_strings::<B>(&seed) {
                 sources.push((B::NAME, B::VER, kind, text));
             }
+            if B::VER == crate::refmodel::Ver::V1 {
+                // v1 keys are also accepted with a PEM body (the upstream vectors supply them so):
+                // the kind verdicts must not depend on which of the two accepted encodings is used
+                use crate::props::c13::pem_encode;
+                let sk = secret_bytes(B::VER, &seed);
+                let pk = public_bytes(B::VER, &sk);
+                let psk = pke_secret_bytes(B::VER, &seed);
+                let ppk = public_bytes(B::VER, &psk);
+                let t = |h: &str, b: Vec<u8>| format!("k1.{h}.{}", crate::util::b64_encode(&b));
+                sources.push((B::NAME, B::VER, "key.secret", t("secret", pem_encode("RSA PRIVATE KEY", &sk))));
+                sources.push((B::NAME, B::VER, "key.public", t("public", pem_encode("PUBLIC KEY", &pk))));
+                sources.push((B::NAME, B::VER, "key.pke-secret", t("secret", pem_encode("RSA PRIVATE KEY", &psk))));
+                sources.push((B::NAME, B::VER, "key.pke-public", t("public", pem_encode("PUBLIC KEY", &ppk))));
+            }
         }
     });
     let mut pairs = 0u64;
